@@ -17,12 +17,22 @@ fn main() {
     let on = |id: &str| want.is_empty() || want.iter().any(|w| w == id);
     if on("F7") {
         run("F7", || {
-            // an artificial zone whose offset jumps by 48 hours (POSIX TZ strings admit |offset| < 25h)
-            let tz = TimeZone::posix("AAA24BBB-24,M3.2.0,M11.1.0").ok()?;
-            let a: Zoned = date(2024, 3, 6).at(0, 0, 0, 0).to_zoned(tz.clone()).ok()?;
-            let b: Zoned = date(2024, 3, 12).at(2, 5, 0, 0).to_zoned(tz.clone()).ok()?;
-            let r = a.until((Unit::Day, &b));   // panics: "this should be an error too"
+            // a fold that crosses midnight backwards: Antarctica/Casey went from +11 to +08 at 2010-03-05T02:00+11 (= 2010-03-04T23:00+08)
+            let tz = TimeZone::get("Antarctica/Casey").ok()?;
+            let a: Zoned = "2010-03-05T00:25:00+08:00[Antarctica/Casey]".parse().ok()?;
+            let b: Zoned = "2010-03-04T23:25:00+08:00[Antarctica/Casey]".parse().ok()?;
+            let _ = tz;
+            let r = a.until((Unit::Day, &b));   // panics: "this should be an error"
             match r { Ok(_) | Err(_) => None }
+        });
+    }
+    if on("F19") {
+        run("F19", || {
+            let a: Zoned = "2010-03-05T00:25:00+11:00[Antarctica/Casey]".parse().ok()?;
+            let b: Zoned = "2010-03-04T23:25:00+08:00[Antarctica/Casey]".parse().ok()?;   // two hours LATER than a
+            let s = a.until((Unit::Day, &b)).ok()?;
+            let back = a.checked_add(s).ok()?;
+            if back != b || s.is_negative() { Some(format!("{a} until {b} (2 h later) = {s:?}; a + s = {back}")) } else { None }
         });
     }
     if on("F8") {
